@@ -252,12 +252,10 @@ Qed.
 Theorem eventgen_matches_metadata (cv : conv) (D : mdesc) (pns : cls -> option str) (ign : bool) (o : value) :
   wf_desc D = true -> no_sequences D = true ->
   typed_value D (S (sdepth o)) o = true ->
-  cache_consistent D pns (S (sdepth o)) None None o = true ->
-  inherit_consistent D (S (sdepth o)) None None None o = true ->
-  token_lists_ok D (S (sdepth o)) o = true ->
+  cache_consistent D pns (S (sdepth o)) None o = true ->
   exists evs, generate ign cv (universe_of D pns) o = Ok evs /\ norm_nil evs = spec_events cv D ign o.
 Proof.
-  intros Hwf Hns H1 H2 H3 H4.
+  intros Hwf Hns H1 H2.
   apply (generate_matches_spec cv D pns ign (universe_of D pns) Hwf Hns); try assumption.
   - intros cd Hcd HoP. exists (build_meta D cd (pns (cd_id cd))). split.
     + apply u_meta_universe_of; [|exact Hcd]. unfold wf_desc in Hwf.
